@@ -184,7 +184,7 @@ def configurations(F, R):
             R.ob('FLOW', key + 'prefix-is-global-prefix', t.endswith('global.prefix'), '.prefix(%s)' % t, c.where, f)
         for c in ph:
             t = sym_nstr(sym(f, c.args[1]))
-            R.ob('FLOW', key + 'path-under-root', 'root_path' in t or 'path_hint' in t or 'node_details_path' in t or 'node_dir' in t or 'phi' in t, '.path_hint(%s)' % t[:100], c.where, f)
+            R.ob('FLOW', key + 'path-under-root', lib.has_origin(f, c.args[1], r'::(root_path|path_hint|node_details_path|node_dir|service_resource_directory)$') or 'phi' in t, '.path_hint(%s)' % t[:100], c.where, f)
     R.floor('configuration builders', n, 12)
     # crate iceoryx2 never uses the default-configuration shortcuts
     bad = []
